@@ -1,6 +1,7 @@
 (* C03 -- Negated walks discard exactly the entries that match the negation. *)
 From WaxModel Require Import Base Token Walk.
-From WaxProofs Require Import WalkFacts.
+From WaxModel Require Import Regex Spec Encode.
+From WaxProofs Require Import SpecFacts EncodeLang WalkFacts PruneFacts GlobWalkFacts NotWalkFacts.
 
 (* per entry: appending a negation keeps exactly the filtrate that neither of its programs matches *)
 Theorem C03_not_keeps_unmatched :
@@ -28,7 +29,26 @@ Theorem C03_not_is_a_filter :
     forall mind maxd root,
       yields (walk mind maxd (ls ++ [nl exh nonexh]) root) =
       filter (fun q => negb (matched exh nonexh q)) (yields (walk mind maxd ls root)).
-Proof.
-  intros ls exh nonexh H mind maxd root. rewrite !walk_refines. exact (not_walk_yields ls exh nonexh H mind maxd root 0 []).
-Qed.
+Proof. exact not_walk_given_promise. Qed.
 Print Assumptions C03_not_is_a_filter.
+
+(* end to end in the model, with the promise discharged: when the exhaustive part of the negation is a token tree every
+   expansion of which ends in a tree wildcard (in the class of the conformance theorem; e.g. `**/target/**`), run by any
+   engine that decides its language, and the negation does not match the empty path, then over any directory tree with
+   valid names, any underlying stack and any depth window, `not` yields exactly the entries of the underlying walk that
+   the negation does not match *)
+Theorem C03_not_is_a_filter_for_tree_terminated_negations :
+  forall orbit tx, wf_tok tx = true -> trees_exact tx = true -> ends_tree tx = true ->
+  forall fx : str -> bool, (forall w, fx w = true <-> sem orbit (encode tx) w) -> fx [] = false ->
+  forall nonexh ls mind maxd root, names_valid root ->
+    yields (walk mind maxd (ls ++ [nl (Some fx) nonexh]) root) =
+    filter (fun q => negb (matched (Some fx) nonexh q)) (yields (walk mind maxd ls root)).
+Proof. exact not_walk_complete. Qed.
+Print Assumptions C03_not_is_a_filter_for_tree_terminated_negations.
+
+(* the class is not empty: the tree of not("**/t/**") *)
+Example C03_tree_terminated_nonvacuous :
+  let sp := (0%N, 0%N) in
+  let tx := TAlt sp [TCat sp [TLeaf sp (LTree false); TLeaf sp (LLit false [116%N]); TLeaf sp (LTree true)]] in
+  wf_tok tx = true /\ trees_exact tx = true /\ ends_tree tx = true.
+Proof. cbv zeta. repeat split; vm_compute; reflexivity. Qed.
